@@ -120,6 +120,53 @@ def plumbing(repo):
         rets = [n for n in ast.walk(f2) if isinstance(n, ast.Return) and n.value is not None]
         good = rets and all(ast_match("return PipelineStep(PartialApplication.lift(_f), getattr(_f, '__name__', None))", r) is not None for r in rets)
         ob("pipeline_step", "every-return-lifts-the-function-into-a-step", good, [ast.unparse(r.value)[:70] for r in rets])
+    # DatasetFactory.update: every field of the updated factory is a function of the same-named argument and the same-named field ONLY
+    ds = repo.module("dataset")
+    upd = ds.classes["DatasetFactory"].methods.get("update") if "DatasetFactory" in ds.classes else None
+    if upd is None:
+        und.append(("DatasetFactory.update", ["not found"]))
+    else:
+        f2 = inline_lets(upd)
+        rets = [n for n in ast.walk(f2) if isinstance(n, ast.Return) and isinstance(n.value, ast.Call)]
+        okshape = len(rets) == 1 and ast.unparse(rets[0].value.func) == "DatasetFactory" and not rets[0].value.args
+        ob("DatasetFactory.update", "returns-one-new-factory-built-by-keywords", okshape, [ast.unparse(r.value)[:60] for r in rets])
+        if okshape:
+            params = {a.arg for a in upd.args.args[1:] + upd.args.kwonlyargs}
+            seen = set()
+            for kw in rets[0].value.keywords:
+                seen.add(kw.arg)
+                names = {x.id for x in ast.walk(kw.value) if isinstance(x, ast.Name)} - {"self", "None"}
+                attrs = {x.attr for x in ast.walk(kw.value) if isinstance(x, ast.Attribute) and isinstance(x.value, ast.Name) and x.value.id == "self"}
+                calls = [ast.unparse(c.func) for c in ast.walk(kw.value) if isinstance(c, ast.Call)]
+                comps = [c for c in ast.walk(kw.value) if isinstance(c, (ast.ListComp, ast.DictComp, ast.SetComp, ast.GeneratorExp))]
+                ob("DatasetFactory.update", f"{kw.arg}-depends-on-its-own-argument-and-field-only", names <= {kw.arg} and attrs <= {kw.arg} and not calls and not comps,
+                   ast.unparse(kw.value)[:80])
+            ob("DatasetFactory.update", "every-field-is-passed-on", params <= seen, sorted(params - seen))
+    # Interface.__init__: a member that already is a dataset is re-pointed to the interface's dispatch, unconditionally
+    it = repo.module("interface").classes.get("Interface")
+    ii = it.methods.get("__init__") if it else None
+    if ii is None:
+        und.append(("Interface.__init__", ["not found"]))
+    else:
+        found = False
+        for n in ast.walk(ii):
+            if isinstance(n, ast.If):
+                b = ast_match("isinstance(_v, Dataset)", n.test)
+                if b is not None:
+                    found = len(n.body) == 1 and ast_match("_v.set_dispatch(_d)", n.body[0], b) is not None
+        ob("Interface.__init__", "dataset-members-get-the-interface-dispatch-unconditionally", found)
+    # Map._create_option_set: the option set is built by set_dotted_key over every (key, value) pair, from an empty dictionary
+    mp = repo.module("iterable").classes.get("Map")
+    cos = mp.methods.get("_create_option_set") if mp else None
+    if cos is None:
+        und.append(("Map._create_option_set", ["not found"]))
+    else:
+        loop = [n for n in ast.walk(cos) if isinstance(n, ast.For)]
+        okc = len(loop) == 1 and len(loop[0].body) == 1 and isinstance(loop[0].target, ast.Tuple) and len(loop[0].target.elts) == 2
+        if okc:
+            k_, v_ = (e.id for e in loop[0].target.elts)
+            okc = ast_match("set_dotted_key(_k, _v, _o)", loop[0].body[0], {"_k": k_, "_v": v_}) is not None and ast.unparse(loop[0].iter) == cos.args.vararg.arg
+        ob("Map._create_option_set", "every-pair-is-set-by-set_dotted_key", okc, ast.unparse(cos)[-120:])
     gm = repo.module("interface").functions.get("_get_members")
     if gm is None:
         und.append(("_get_members", ["not found"]))
